@@ -352,6 +352,20 @@ def rule_R7(ck):
     if gen[0].kind != "return" or gen[0].value != want:
         ck.violation("deferred::LinearPolynomial._wait", f"waiting c1*K1 + C after K1 := d1*K2 + D and K2 := E gives {gen[0].value!r}, the algebra requires {want!r}",
                      construct="poly wait substitution", expected=repr(want), found=repr(gen[0].value))
+    # once every variable is known the polynomial IS its constant: its best estimate is that number (not the polynomial, not None)
+    def thunk_be():
+        K1 = prom("K1")
+        P = mkpoly(I, {K1: c1}, C)
+        I.call_method(K1, "settle", [E])
+        I.call(I.module_get("deferred", "wait"), [P], {})
+        return I.call_method(P, "get_current_best_estimate", [])
+    ps = I.explore(thunk_be)
+    gen = [p for p in ps if all(v for k, v in p.decisions)] or ps
+    want_be = sym.add(sym.mul(c1, E), C)
+    ck.instance(("poly", "best-estimate-known"), {"best estimate of c1*K1 + C after K1 := E and a wait": repr(gen[0].value)}, fn="deferred::LinearPolynomial.get_current_best_estimate")
+    if gen[0].kind != "return" or gen[0].value != want_be:
+        ck.violation("deferred::LinearPolynomial.get_current_best_estimate", f"the best estimate of c1*K1 + C after K1 := E and a wait is {gen[0].value!r}, expected the number {want_be!r}",
+                     construct="poly best estimate when known", expected=repr(want_be), found=repr(gen[0].value))
     # the same with K1 settled to a plain integer
     def thunk2():
         K1, K2 = prom("K1"), prom("K2")
